@@ -880,6 +880,23 @@ def cross_run(prop, results):
       continue
     for name, vals in r["stats"].get("pvalues", []):
       pv.setdefault(name, []).extend(vals)
+  # families of sub-tests of one test (e.g. the 18 excursion-variant states):
+  # one Bonferroni-corrected value min(1, m * p_min) per run is a valid
+  # p-value whatever the dependence inside the family
+  fam = {}
+  for r in results:
+    if not r["ok"] or r["profile"] != "e2e":
+      continue
+    groups = {}
+    for name, vals in r["stats"].get("pvalues", []):
+      test, _, sub = name.partition("|")
+      key = test + "|" + "".join("#" if ch.isdigit() else ch for ch in sub)
+      groups.setdefault(key, []).append(min(vals))
+    for key, mins in groups.items():
+      if len(mins) >= 3:
+        fam.setdefault("family " + key, []).append(
+            min(1.0, len(mins) * min(mins)))
+  pv.update(fam)
   viol = []
   for name in sorted(pv):
     vals = pv[name]
